@@ -1795,7 +1795,7 @@ public:
     crab::CrabStats::count(domain_name() + ".count.forget");
     crab::ScopedCrabStats __st__(domain_name() + ".forget");
 
-    if (is_bottom() || is_top()) {
+    if (is_bottom()) {
       return;
     }
 
@@ -1837,7 +1837,7 @@ public:
     crab::CrabStats::count(domain_name() + ".count.project");
     crab::ScopedCrabStats __st__(domain_name() + ".project");
 
-    if (is_bottom() || is_top()) {
+    if (is_bottom()) {
       return;
     }
 
@@ -1861,7 +1861,7 @@ public:
 
   void rename(const variable_vector_t &from,
               const variable_vector_t &to) override {
-    if (is_bottom() || is_top()) {
+    if (is_bottom()) {
       return;
     }
     
@@ -1896,7 +1896,7 @@ public:
     crab::CrabStats::count(domain_name() + ".count.expand");
     crab::ScopedCrabStats __st__(domain_name() + ".expand");
 
-    if (is_bottom() || is_top()) {
+    if (is_bottom()) {
       return;
     }
 
